@@ -3,8 +3,8 @@
 -/
 import Stevia.Proofs.TreeState
 import Stevia.Proofs.ArraySetState
-import Stevia.Proofs.GenTreeQuery32
-import Stevia.Proofs.GenTreeQuery8
+import Stevia.Proofs.GenTreeOpen32
+import Stevia.Proofs.GenTreeOpen8
 import Stevia.Proofs.TreeImpEq
 
 namespace Stevia.C08
